@@ -43,6 +43,8 @@ type facts struct {
 	ReflectUses []string            `json:"reflect_uses"`
 	Unreachable []string            `json:"unreachable"` // hand-written functions no function of the transcription-time API reaches (not counted for observers)
 	WriteSites  []string            `json:"write_sites"` // index assignments / delete / in hand-written files
+	VisitorGen  [][2]string         `json:"visitor_gen"` // function of jsonquery_visitor_impl.go -> translated | forwards:X | unsupported: why
+	VisitorNote []string            `json:"visitor_notes"`
 }
 
 func leanStr(s string) string {
@@ -136,8 +138,29 @@ func alphaNormalise(fd *ast.FuncDecl) {
 		}
 		return true
 	})
+	// a key of a struct literal is a field name, whatever the (deprecated) resolver of go/parser bound it to
+	fieldKeys := map[*ast.Ident]bool{}
+	ast.Inspect(fd, func(n ast.Node) bool {
+		if cl, ok := n.(*ast.CompositeLit); ok {
+			switch cl.Type.(type) {
+			case *ast.MapType, *ast.ArrayType:
+				return true
+			}
+			for _, el := range cl.Elts {
+				if kv, ok := el.(*ast.KeyValueExpr); ok {
+					if id, ok := kv.Key.(*ast.Ident); ok {
+						fieldKeys[id] = true
+					}
+				}
+			}
+		}
+		return true
+	})
 	orig := map[*ast.Object]string{}
 	for _, id := range idents {
+		if fieldKeys[id] {
+			continue
+		}
 		o := id.Obj
 		if o == nil || o.Kind != ast.Var || id.Name == "_" {
 			continue
@@ -153,7 +176,7 @@ func alphaNormalise(fd *ast.FuncDecl) {
 		v++
 	}
 	for _, id := range idents {
-		if id.Obj != nil {
+		if id.Obj != nil && !fieldKeys[id] {
 			if nn, ok := names[id.Obj]; ok {
 				id.Name = nn
 			}
@@ -908,6 +931,10 @@ func main() {
 	fl.WriteString("def reflectUses : List String := " + leanStrs(f.ReflectUses) + "\n\n")
 	fl.WriteString("end Rules.Generated\n")
 	os.WriteFile(filepath.Join(outdir, "Facts.lean"), []byte(fl.String()), 0o644)
+
+	vsrc, vstatus, vnotes := genVisitor(fset, decls, declFile, f.TokenConsts, render)
+	f.VisitorGen, f.VisitorNote = vstatus, vnotes
+	os.WriteFile(filepath.Join(outdir, "Visitor.lean"), []byte(vsrc), 0o644)
 
 	js, _ := json.MarshalIndent(f, "", " ")
 	os.WriteFile(outjson, js, 0o644)
